@@ -853,6 +853,127 @@ def gen_histories(J, rng, quick):
 
 
 # =====================================================================================================================
+# H. operator POOLS and excitation tables on registers large enough for every group to exist (2, 3, 4 spatial orbitals)
+# =====================================================================================================================
+def pool_tables(nmo):
+    """(pool name, kinds to conserve, list of FermionOperators): every built-in generator table of the UCC family.
+    S^2 is required only for openfermion's singlet generator; about half of the elements of the generalized tables do
+    not commute with S^2 on the unchanged tree (already for 2 orbitals) - an observation recorded in docs/C12.md, outside the
+    property (which claims N and Sz for the ansaetze)."""
+    import numpy as np
+    from tangelo.toolboxes.operators import FermionOperator
+    from tangelo.toolboxes.ansatz_generator import _general_unitary_cc as g
+    from tangelo.toolboxes.ansatz_generator._unitary_cc_paired import get_upccgsd
+    from tangelo.toolboxes.ansatz_generator._unitary_cc_openshell import uccsd_openshell_generator, uccsd_openshell_paramsize
+    from openfermion.circuits import uccsd_singlet_generator, uccsd_singlet_paramsize
+    nso = 2 * nmo
+    out = []
+    ns, nd = g.get_singles_number(nmo), g.get_doubles_number(nmo)
+    out.append(("uccgsd_generator", ["N", "Sz"], g.uccgsd_generator(nso, single_coeffs=np.ones(ns), double_coeffs=np.ones(nd))))
+    rows = []
+    for item in g.get_all_excitations(nmo, up_down=False):
+        op = FermionOperator()
+        for term in item:
+            op += FermionOperator(*term[:-1], term[-1])
+        rows.append(op)
+    out.append(("get_all_excitations", ["N", "Sz"], rows))
+
+    def unit_ops(npar, build):
+        ops = []
+        for i in range(npar):
+            e = np.zeros(npar)
+            e[i] = 1.0
+            ops.append(build(e))
+        return ops
+    per = nmo * (nmo - 1) // 2 * 3
+    out.append(("get_upccgsd", ["N", "Sz"], unit_ops(per, lambda e: get_upccgsd(nmo, e))))
+    for ne in sorted(set([2, 2 * (nmo - 1)])):
+        if 0 < ne < nso:
+            npar = uccsd_singlet_paramsize(nso, ne)
+            out.append(("uccsd_singlet_generator(ne=%d)" % ne, ["N", "Sz", "S2"], unit_ops(npar, lambda e: uccsd_singlet_generator(e, nso, ne))))
+    if nmo >= 2:
+        na, nb = (2, 1) if nmo >= 3 else (1, 0)
+        sizes = uccsd_openshell_paramsize(na, nb, nmo, nmo)
+        npar = sizes[0] + sizes[1]
+        out.append(("uccsd_openshell_generator(%d,%d)" % (na, nb), ["N", "Sz"],
+                    unit_ops(npar, lambda e: uccsd_openshell_generator(e, na, nb, nmo, nmo))))
+    return out
+
+
+def gen_pools(J, rng, quick):
+    chk = J.chk
+    for nmo in (2, 3, 4):
+        tables = guarded(chk, "pool-tables", {"class": "pool", "nmo": nmo}, lambda: pool_tables(nmo))
+        if tables is None:
+            continue
+        for name, kinds, ops in tables:
+            idx = list(range(len(ops)))
+            if nmo == 4 and (quick or len(idx) > 120):
+                # 8 modes, 256 determinants: every group of the table is kept (first / last / seeded middle elements)
+                keep = set(idx[:3] + idx[-3:] + rng.sample(idx, min(len(idx), 14 if quick else 60)))
+                idx = sorted(keep)
+            for i in idx:
+                try:
+                    fj = fop_json(ops[i])
+                except OffGrid:
+                    chk.inconclusive += 1
+                    continue
+                if not fj:
+                    continue
+                J.add("fockgen", {"class": "pool", "pool": name, "nmo": nmo, "element": i}, f=fj, kinds=kinds, n=2 * nmo, utd=False)
+
+
+def adapt_states(J, rng, quick):
+    """ADAPTAnsatz states built from several elements of the default pool (processed as ADAPTSolver.build does) on a
+    3-orbital system: exact ring evaluation, the state must stay in its (N, Sz) sector."""
+    import numpy as np
+    from tangelo.toolboxes.ansatz_generator.adapt_ansatz import ADAPTAnsatz
+    from tangelo.toolboxes.ansatz_generator._general_unitary_cc import uccgsd_generator, get_singles_number, get_doubles_number
+    from tangelo.toolboxes.qubit_mappings.mapping_transform import fermion_to_qubit_mapping
+    chk = J.chk
+    nmo, nso = 3, 6
+    for ne, utd in ((2, False), (4, True)) if quick else ((2, False), (2, True), (4, False), (4, True)):
+        how0 = {"class": "adapt-state", "nmo": nmo, "ne": ne, "utd": utd}
+
+        def pool():
+            ferm = uccgsd_generator(nso, single_coeffs=np.ones(get_singles_number(nmo)), double_coeffs=np.ones(get_doubles_number(nmo)))
+            qub = []
+            for fi in ferm:
+                q = fermion_to_qubit_mapping(fermion_operator=fi, mapping="JW", n_spinorbitals=nso, n_electrons=ne, up_then_down=utd, spin=0)
+                for term, coeff in q.terms.items():
+                    q.terms[term] = math.copysign(1., coeff.imag)
+                qub.append(q)
+            return ferm, qub
+        r = guarded(chk, "adapt-pool", how0, pool)
+        if r is None:
+            continue
+        ferm, qub = r
+        S8, nq = sym_images(nso, utd, ne, 0)
+        S = [{"op": [dict(t, c=ring_convert(t["c"])) for t in x["op"]], "v": ring_convert(x["v"])} for x in S8]
+        small = [i for i in range(len(qub)) if 0 < len(qub[i].terms) <= 16]
+        for trial in range(2 if quick else 6):
+            # one single excitation and two doubles (the doubles groups need three distinct orbitals to exist)
+            ns = get_singles_number(nmo)
+            picks = [rng.choice([i for i in small if i < ns])] + rng.sample([i for i in small if i >= ns], 2)
+            try:
+                ans = ADAPTAnsatz(nso, ne, 0, {"mapping": "jw", "up_then_down": utd})
+                ans.build_circuit()
+                for i in picks:
+                    ans.add_operator(qub[i], ferm[i])
+                theta = [math.pi / 4 * rng.randrange(1, 8) for _ in picks]
+                ans.build_circuit(theta)
+                gj = gates_to_json(list(ans.circuit), MC)
+            except OffGrid:
+                chk.inconclusive += 1
+                continue
+            except Exception as e:
+                chk.violation("exception:adapt-state", "%s: %s" % (type(e).__name__, e), {"kind": "exception", "how": dict(how0, picks=picks)})
+                continue
+            J.add("circ", dict(how0, picks=picks, theta_units=[round(t / math.pi * 4) for t in theta]), gates=gj,
+                  nq=max(nq, ans.circuit.width), S=S, M=MC)
+
+
+# =====================================================================================================================
 def s_part(chk):
     invs = ["SpecEigen", "SpecS2Eigen", "S2Commutes", "SquarePositive", "FastApplyAgrees", "Discriminates", "BlockSelfCheck"]
     sets = ["{2, 4}", "{6}"]
@@ -880,6 +1001,8 @@ def negative_controls(J, verdicts):
         c = copy.deepcopy(j)
         if k in ("N", "Sz", "S2", "pen"):
             c["f"] = bump(c["f"])
+        elif k == "fockgen":
+            c["f"] = c["f"] + [{"t": [[0, 1], [1, 0]], "c": ring(1.0)}]        # an alpha -> beta spin flip: Sz changes
         elif k == "comm":
             c["op"] = c["op"] + [{"t": [[0, 1], [1, 0]], "c": ring(1.0)}] if j["n"] >= 4 else None
             if c["op"] is None:
@@ -979,6 +1102,8 @@ def run(chk):
     gen_histories(J, rng, chk.quick)
     gen_sign_histories(J, rng, chk.quick)
     gen_frozen(J, rng, chk.quick)
+    gen_pools(J, rng, chk.quick)
+    adapt_states(J, rng, chk.quick)
     verdicts, ctl = judge_all(chk, J)
     stats, per_key = {}, {}
     for j in J.jobs:
@@ -1013,7 +1138,7 @@ def run(chk):
     if bad:
         raise tlc.TLCError("binding failure: corrupted records accepted: %s" % bad)
     chk.part("V", jobs=len(J.jobs), by_class={k: {"n": v[0], "bad": v[1]} for k, v in sorted(stats.items())})
-    for cls in ("operator", "penalty", "commutation", "encoded-penalty", "generator", "history", "frozen"):
+    for cls in ("operator", "penalty", "commutation", "encoded-penalty", "generator", "history", "frozen", "pool", "adapt-state"):
         for j in J.jobs:
             if J.meta[j["id"]]["how"].get("class") == cls:
                 chk.sample({"how": J.meta[j["id"]]["how"], "verdict": verdicts[j["id"]],
@@ -1038,6 +1163,10 @@ def key_of(how):
         parts.append(how["spec"]["form"] + "-" + "+".join(p[0] for p in how["spec"]["parts"]))
     if "utd" in how:
         parts.append("utd=%s" % how["utd"])
+    if how.get("class") == "pool":
+        parts.append("nmo=%s" % how.get("nmo"))
+    if how.get("class") == "adapt-state":
+        parts.append("nmo=%s:ne=%s" % (how.get("nmo"), how.get("ne")))
     if how.get("class") == "frozen":
         nmo, ne, spin, frozen = how["mol"]
         parts.append("mol=%d.%d.%d:frozen=%s" % (nmo, ne, spin, "-".join(str(x) for x in (frozen or [])) or "none"))
@@ -1075,6 +1204,10 @@ def replay(chk, rec):
         i = how["ints"]
         H = synth_uhf_hamiltonian(i["nmo"], *i["uhf"])
         J.add("comm", how, op=fop_json(symmetry_op(how["op"], i["nmo"], False)), ham=fop_json(H), n=2 * i["nmo"])
+    elif cls == "pool":
+        for name, kinds, ops in pool_tables(how["nmo"]):
+            if name == how["pool"]:
+                J.add("fockgen", how, f=fop_json(ops[how["element"]]), kinds=kinds, n=2 * how["nmo"], utd=False)
     elif cls == "frozen":
         frozen_job(J, random.Random(0), how["ansatz"], tuple(how["mol"][:3]) + (how["mol"][3],), how["utd"], vec=how.get("theta_units"))
         if c2.violations:
@@ -1089,7 +1222,7 @@ def replay(chk, rec):
             return False
     else:
         # re-generate the whole class and look for the same key
-        gens = {"encoded-penalty": gen_encoded, "encoded-penalty-on-determinants": gen_encoded, "generator": gen_ansatz,
+        gens = {"adapt-state": adapt_states, "encoded-penalty": gen_encoded, "encoded-penalty-on-determinants": gen_encoded, "generator": gen_ansatz,
                 "block": gen_ansatz, "adapt-pool": gen_ansatz, "circuit": gen_circuits}
         if cls not in gens:
             print("exception / unknown class: re-running the generators")
